@@ -17,8 +17,10 @@ import (
 	"testing/fstest"
 	"time"
 
+	"github.com/foxboron/go-uefi/efi"
 	"github.com/foxboron/go-uefi/efi/attributes"
 	"github.com/foxboron/go-uefi/efi/device"
+	"github.com/foxboron/go-uefi/efi/efitest"
 	efifs "github.com/foxboron/go-uefi/efi/fs"
 	"github.com/foxboron/go-uefi/efi/signature"
 	"github.com/foxboron/go-uefi/efi/util"
@@ -101,6 +103,29 @@ func c14Accessors(content []byte) {
 		}
 	}
 	e.GetLoaderEntrySelected()
+	// the package-level twins over the same files, and over an empty directory
+	mfs := fstest.MapFS{}
+	for p, b := range files {
+		mfs[p] = &fstest.MapFile{Data: b}
+	}
+	for _, dir := range []fstest.MapFS{mfs, {}} {
+		efifs.SetFS(efitest.FromMapFS(dir))
+		efi.GetPK()
+		efi.GetKEK()
+		efi.Getdb()
+		efi.Getdbx()
+		efi.GetSetupMode()
+		efi.GetSecureBoot()
+		efi.GetCurrentlyBootedEntry()
+		efi.GetBootOrder()
+		if lo, err := efi.GetBootEntry("Boot0001"); err == nil && lo != nil {
+			for _, n := range lo.FilePath {
+				if n != nil {
+					n.Format()
+				}
+			}
+		}
+	}
 }
 
 func c14Trunc(c *hx.Ctx, entry string, seed []byte, f func(b []byte)) {
